@@ -13,7 +13,8 @@ TRUSTED = ['engine programs use TS[int] feedback; structured feedback (TSB/TSL/T
 ASSUMPTIONS = ["the source ranks before its readers and the sink after the producer (C01); the sink's request for t+1 is honoured (C02)"]
 TECHNIQUE = 'Lean 4 proof (single-slot feedback state machine: delivered stream = writes shifted by MIN_TD, by induction over arbitrary cycle lists) + shared definitions with the engine model + differential correspondence + reference monitor'
 LEVEL_TEXT = ("Kernel-checked for every write history: the reader's ticks are exactly the producer's writes one smallest step later, in order, without loss or duplication; never in the producing cycle; an initial value arrives at the start time; no writes, no deliveries (quiescence). The engine model uses these same step functions and is compared with the runtime."
-              " Structured feedback shapes (Props/C08Shape.lean, stream fbshape; TSB / nested TSB / TSL / TSS / TSD as delta-valued ticks): the delivered delta stream is the written delta stream one smallest step later, a position ticks at the reader iff it was written one step earlier (no_spurious_field_tick), the reader's value is the fold of the written deltas, and not clearing the captured state is unobservable.")
+              " Structured feedback shapes (Props/C08Shape.lean, stream fbshape; TSB / nested TSB / TSL / TSS / TSD as delta-valued ticks): the delivered delta stream is the written delta stream one smallest step later, a position ticks at the reader iff it was written one step earlier (no_spurious_field_tick), the reader's value is the fold of the written deltas, and not clearing the captured state is unobservable."
+              " Start time (Props/C08Init.lean): for every shape (incl. a TSB with a TSS field) and every declared initial delta the reader's stream is [initial at start] ++ shifted writes, the head being a tick iff the delta has an effect on the fresh output (TS/TSB/TSL: carries a position; TSS: always; TSD: unless removals only; bundle: always for an authored delta); a declared collection initial - the EMPTY one included - leaves the port valid from the start time on; a self loop whose body is gated on the validity of the fed-back collection is the plain fold over the ticks of x and runs on the first tick; counter-witness for skipping an empty initial delta (reader not validated, loop silent for ever).")
 LEVEL_NOTE = 'Trusted: Lean kernel; model tied by correspondence. The tie on evaluation_time + MIN_TD is by correspondence (a changed delay changes every delivery time).'
 
 
